@@ -239,10 +239,10 @@ def run_impl(p):
                         res = uf(ra, x, out=ra)
                     except Exception:
                         if not np.array_equal(ra.ravel().view(np.uint8), a.view(np.uint8)):
-                            raise AssertionError("a refused in-place operation changed the array")
+                            raise engine.Inconsistent("a refused in-place operation changed the array")
                         raise
                     if res is not ra:
-                        raise AssertionError("the in-place form returned another object")
+                        raise engine.Inconsistent("the in-place form returned another object")
                 else:
                     res = uf(ra, x, **kw) if p["side"] == "right" else uf(x, ra, **kw)
         if not isinstance(res, RaggedArray):
